@@ -58,11 +58,14 @@ pub fn run(tier: &str, seed: u64, out: &str) {
                 drawn
             }));
         }
+        // every completed iteration of any worker counts as progress: no progress at all for a while = blocked
+        let progress = std::sync::Arc::new(std::sync::atomic::AtomicUsize::new(0));
         for t in 0..threads {
             let cc = cc.clone();
             let (mskb, mpkb) = (mskb.clone(), mpkb.clone());
             let tx = tx.clone();
             let per = iters / threads + 1;
+            let progress = progress.clone();
             std::thread::spawn(move || {
                 let mut errs = vec![];
                 let mut calls = 0;
@@ -75,6 +78,7 @@ pub fn run(tier: &str, seed: u64, out: &str) {
                 let no_pol = AccessPolicy::parse("D::B && S::T").unwrap();
                 let mut usk = cc.generate_user_secret_key(&mut msk, &ok_pol).unwrap();
                 for i in 0..per {
+                    progress.fetch_add(1, Ordering::Relaxed);
                     let (s, x) = cc.encaps(&mpk, &enc_pol).unwrap();
                     fresh.push(x.serialize().unwrap()[..16].to_vec());
                     fresh.push(s.to_vec());
@@ -130,8 +134,20 @@ pub fn run(tier: &str, seed: u64, out: &str) {
         let mut done = 0;
         let deadline = Duration::from_secs(if tier == "thorough" { 900 } else { 120 });
         let start = std::time::Instant::now();
+        let stall = Duration::from_secs(60);
+        let mut last_progress = (progress.load(Ordering::Relaxed), std::time::Instant::now());
         while done < threads {
-            match rx.recv_timeout(deadline.saturating_sub(start.elapsed())) {
+            let r = rx.recv_timeout(Duration::from_secs(1));
+            if let Err(mpsc::RecvTimeoutError::Timeout) = r {
+                let p = progress.load(Ordering::Relaxed);
+                if p != last_progress.0 {
+                    last_progress = (p, std::time::Instant::now());
+                }
+                if start.elapsed() < deadline && last_progress.1.elapsed() < stall {
+                    continue;
+                }
+            }
+            match r {
                 Ok((_, calls, errs, fresh)) => {
                     done += 1;
                     total_calls += calls;
@@ -148,7 +164,7 @@ pub fn run(tier: &str, seed: u64, out: &str) {
                 }
                 Err(_) => {
                     fails.push(serde_json::json!({"kind": "impl-oracle", "oracle": "concurrent-progress", "tags": ["blocked"],
-                        "what": format!("{} of {threads} threads did not finish within {:?}: a call blocks (deadlock) or a thread died", threads - done, deadline), "lines": [], "case": format!("{threads} threads")}));
+                        "what": format!("{} of {threads} threads did not finish (limit {:?}; no iteration completed by any thread during the last {:?}): a call blocks (deadlock) or a thread died", threads - done, deadline, last_progress.1.elapsed()), "lines": [], "case": format!("{threads} threads")}));
                     break;
                 }
             }
